@@ -14,7 +14,7 @@ type VSched struct {
 }
 
 type AllowedEntry struct {
-	Who     int    `json:"who"`           // actor index; -1 = use RawAddr
+	Who     int    `json:"who"`           // actor index; -1 = use RawAddr (malformed); -2 = RawAddr is a well-formed address of nobody in the run
 	RawAddr string `json:"raw,omitempty"` // used when Who == -1 (malformed address)
 	Max     string `json:"max"`           // integer string (may be 0 / negative for invalid cases)
 	Upper   bool   `json:"uc,omitempty"`  // the address is spelt in upper case (legal bech32, same account)
